@@ -687,10 +687,21 @@ Fixpoint resps_eqb (flags : list bool) (a b : list (req * option bool)) : bool :
   | _, _ => false
   end.
 
+(* the executor died: the device event of the very step that crashed is sent by the reaper
+   goroutine while the released handler goroutine panics, so it may or may not get out *)
+Fixpoint events_upto_crash (m o : list (bool * Z * status)) : bool :=
+  match m, o with
+  | [], [] => true
+  | [_], [] => true
+  | x :: m', y :: o' => ev_eqb x y && events_upto_crash m' o'
+  | _, _ => false
+  end.
+
 Definition obs_eqb (flags : list bool) (m o : mobs) : bool :=
   list_eqb status_eqb (mo_statuses m) (mo_statuses o) &&
   N.eqb (mo_before_kill m) (mo_before_kill o) &&
-  list_eqb ev_eqb (mo_events m) (mo_events o) &&
+  (if mo_crashed m then events_upto_crash (mo_events m) (mo_events o)
+   else list_eqb ev_eqb (mo_events m) (mo_events o)) &&
   resps_eqb flags (mo_resps m) (mo_resps o) &&
   N.eqb (mo_pids m) (mo_pids o) &&
   list_eqb sig_eqb (mo_sigs m) (mo_sigs o) &&
